@@ -12,6 +12,14 @@ from ..model import AnalysisError, Func, own_nodes, src
 from .common import chain, mentions, names_in
 
 
+def _norm_gl(ctx, q):
+    """The method with a generator that is consumed by one loop written as the nested loops it stands for, and pairwise
+    tuple assignments split (`a, b = x[:i], x[i:]`)."""
+    from .normalise import normalised
+
+    return normalised(ctx, ctx.func(q), "genloops")
+
+
 @dataclass
 class ShadingFacts:
     f: Func
@@ -41,7 +49,7 @@ def _int_offset(e: ast.AST, var: str) -> Optional[int]:
 
 
 def analyse_shading(ctx: Ctx) -> ShadingFacts:  # noqa: C901
-    f = ctx.func("Acl.shading")
+    f = _norm_gl(ctx, "Acl.shading")
     cfg = ctx.cfg(f)
     sf = ShadingFacts(f=f, cfg=cfg)
     for c in cfg.live:
